@@ -52,6 +52,7 @@ type Frame struct {
 	houdini       map[int][]*Clause // extra candidate invariants per loop ordinal (already proved)
 	paramClosures map[*ssa.Parameter]*closureInfo
 	curCallArgs   []ssa.Value
+	curBindings   []Val
 }
 
 func (g *Gen) newFrame(fn *ssa.Function, parent *Frame) *Frame {
@@ -634,6 +635,8 @@ func (f *Frame) store(t *ssa.Store, st *State) {
 	if p.Loc != nil {
 		g.frameStore(st, p.Loc.Key, p.Loc.Addr, intLit(1), t.Pos(), src)
 		g.storeLeaf(st, p.Loc.Key, p.Loc.Addr, Val{Typ: p.Loc.Typ, Comps: v.Comps})
+		g.bumpTokAt(st, &p.Loc.Addr, hasPtrComps(p.Loc.Typ))
+		return
 	} else {
 		if !f.nonNil(t.Addr) {
 			g.oblige(st, "nil", t.Pos(), src, tNot(tEq(p.Comps[0], intLit(0))))
@@ -645,7 +648,17 @@ func (f *Frame) store(t *ssa.Store, st *State) {
 			return
 		}
 	}
-	g.bumpTok(st)
+	g.bumpTokAt(st, &p.Comps[0], hasPtrComps(elemT))
+}
+
+func hasPtrComps(t types.Type) bool {
+	for _, c := range layout(t) {
+		switch c.Kind {
+		case KPtr, KSlicePtr, KIfacePay, KOpaque, KArray:
+			return true
+		}
+	}
+	return false
 }
 
 // isVariableCell: an Alloc that only holds a source variable (address used by loads, stores, closure bindings).
@@ -883,7 +896,7 @@ func (g *Gen) havocRange(st *State, elem types.Type, ptr, n Term) {
 			st.heap[k] = Term{S: nn, Sort: arrSort(c.Sort)}
 		}
 	}
-	g.bumpTok(st)
+	g.bumpTokAt(st, &ptr, hasPtrComps(elem))
 }
 
 func (g *Gen) boxIface(st *State, x Val, t types.Type) Val {
@@ -1002,6 +1015,8 @@ func (f *Frame) runDefers(st *State) {
 // ---------------------------------------------------------------- loops
 
 type loopMods struct {
+	nonFresh bool // some write may hit memory not allocated by this function call
+	escape   bool // ... and may store a pointer there
 	all   bool
 	keys  map[string]string // comp key -> sort
 	fresh map[string]string // keys touched only by stores into memory allocated inside the loop
@@ -1056,6 +1071,14 @@ func (f *Frame) scanMods(blocks []*ssa.BasicBlock, lm *loopMods, depth int) {
 			switch t := in.(type) {
 			case *ssa.Store:
 				lm.tok = true
+				if !staticallyFresh(t.Addr, map[ssa.Value]bool{}) {
+					if a, ok := t.Addr.(*ssa.Alloc); !ok || !isVariableCell(a) {
+						lm.nonFresh = true
+						if hasPtrComps(t.Val.Type()) {
+							lm.escape = true
+						}
+					}
+				}
 				switch a := t.Addr.(type) {
 				case *ssa.FieldAddr:
 					pt := under(a.X.Type()).(*types.Pointer)
@@ -1087,6 +1110,9 @@ func (f *Frame) scanMods(blocks []*ssa.BasicBlock, lm *loopMods, depth int) {
 				lm.alloc = true
 			case *ssa.MapUpdate:
 				lm.tok = true
+				if !staticallyFresh(t.Map, map[ssa.Value]bool{}) {
+					lm.nonFresh, lm.escape = true, true
+				}
 				lm.addMap(t.Map.Type())
 			case *ssa.Go, *ssa.Send, *ssa.Select, *ssa.MakeChan:
 				lm.all = true
@@ -1149,7 +1175,20 @@ func (f *Frame) loopHeader(li *LoopInfo, st *State, phiEntry map[*ssa.Phi]Val) {
 			st.W = Term{S: w, Sort: SInt}
 		}
 		if lm.tok || len(lm.keys) > 0 {
-			g.bumpTok(st)
+			if lm.nonFresh {
+				esc := st.esc
+				g.bumpTokAt(st, nil, lm.escape)
+				if !lm.escape {
+					st.esc = esc
+				}
+			} else {
+				// every write of the loop goes to memory allocated by this call
+				old := st.tok
+				esc := st.esc
+				g.bumpTokAt(st, nil, false)
+				st.tok = g.name("tok", tIte(esc, st.tok, old))
+				st.esc = esc
+			}
 		}
 	}
 	for p := range phiEntry {
@@ -1367,4 +1406,34 @@ func (g *Gen) specError(c *Contract, cl *Clause, err error) {
 		}
 	}
 	g.specErrs = append(g.specErrs, msg)
+}
+
+// staticallyFresh: the address is rooted at an allocation performed by this function.
+func staticallyFresh(v ssa.Value, seen map[ssa.Value]bool) bool {
+	if seen[v] {
+		return true
+	}
+	seen[v] = true
+	switch x := v.(type) {
+	case *ssa.Alloc, *ssa.MakeSlice, *ssa.MakeMap:
+		return true
+	case *ssa.Slice:
+		return staticallyFresh(x.X, seen)
+	case *ssa.IndexAddr:
+		return staticallyFresh(x.X, seen)
+	case *ssa.FieldAddr:
+		return staticallyFresh(x.X, seen)
+	case *ssa.Call:
+		if b, ok := x.Call.Value.(*ssa.Builtin); ok && b.Name() == "append" {
+			return staticallyFresh(x.Call.Args[0], seen)
+		}
+	case *ssa.Phi:
+		for _, e := range x.Edges {
+			if !staticallyFresh(e, seen) {
+				return false
+			}
+		}
+		return true
+	}
+	return false
 }
